@@ -51,7 +51,8 @@ def run(rep: Report) -> None:
                             key=f"raise|{p.raised[0]}|{_fn(p.raised[1])}|{cfg_class(cfg)}")
                 continue
             bad_ev = [e for e in p.events if e[0] in (
-                "assert-fails", "none-arith", "stop-iteration", "call-shape", "shape-mismatch")]
+                "assert-fails", "none-arith", "stop-iteration", "call-shape", "shape-mismatch",
+                "engine-state-shared", "class-attr-store", "var-length")]
             if bad_ev:
                 e = bad_ev[0]
                 rep.refuted("steps-without-raise", lab, e[1], e[2], key=f"{e[0]}|{_fn(e[1])}")
@@ -142,6 +143,9 @@ def run(rep: Report) -> None:
                     else:
                         rep.holds("compiles-after-step", label, "Engine.to_function")
     rep.floor("compile scenarios", ncomp, 30)
+    from .. import ctor
+
+    ctor.check(rep)
 
     # primitives in isolation with length-1 (rank-1) scalar arguments: numpy ranks
     runs = PC.all_runs(prog, rep.tier, impls=("numpy",), scalar_rank=1)
